@@ -24,6 +24,7 @@ type Tok struct {
 	V    *int   `json:"v,omitempty"`
 	N    *int   `json:"n,omitempty"`
 	A    string `json:"a,omitempty"`
+	Z    *int   `json:"z,omitempty"` // byte length of a string/binary payload (lexer only)
 	Name string `json:"name,omitempty"`
 	Mt   *int   `json:"mt,omitempty"`
 	Seq  *int   `json:"seq,omitempty"`
@@ -366,9 +367,22 @@ func Lex(b []byte, ty int) (toks []Tok, n int, err error) {
 }
 
 type lexer struct {
-	b   []byte
-	p   int
-	out []Tok
+	b     []byte
+	p     int
+	out   []Tok
+	types []int // offsets of the bytes that hold a wire type (field, element, key, value types)
+}
+
+// TypeOffsets returns the offsets of all type bytes of the struct encoding b (ty 12).
+func TypeOffsets(b []byte) (offs []int, err error) {
+	l := &lexer{b: b}
+	defer func() {
+		if r := recover(); r != nil {
+			err = fmt.Errorf("lex: %v", r)
+		}
+	}()
+	l.value(12, 0)
+	return l.types, nil
 }
 
 func (l *lexer) need(n int) {
@@ -420,11 +434,12 @@ func (l *lexer) value(ty int, depth int) {
 	case 11:
 		n := l.i32()
 		l.need(n)
-		l.out = append(l.out, Tok{T: "V", Ty: ip(11), A: "bin:" + hex.EncodeToString(l.b[l.p:l.p+n])})
+		l.out = append(l.out, Tok{T: "V", Ty: ip(11), A: "bin:" + hex.EncodeToString(l.b[l.p:l.p+n]), Z: ip(n)})
 		l.p += n
 	case 12:
 		l.out = append(l.out, Tok{T: "SB"})
 		for {
+			l.types = append(l.types, l.p)
 			ft := l.u8()
 			if ft == 0 {
 				l.out = append(l.out, Tok{T: "STOP"})
@@ -437,6 +452,7 @@ func (l *lexer) value(ty int, depth int) {
 		}
 		l.out = append(l.out, Tok{T: "SE"})
 	case 13:
+		l.types = append(l.types, l.p, l.p+1)
 		kt, vt, n := l.u8(), l.u8(), l.i32()
 		l.out = append(l.out, Tok{T: "MB", K: ip(kt), V: ip(vt), N: ip(n)})
 		if n < 0 {
@@ -448,6 +464,7 @@ func (l *lexer) value(ty int, depth int) {
 		}
 		l.out = append(l.out, Tok{T: "ME"})
 	case 14, 15:
+		l.types = append(l.types, l.p)
 		et, n := l.u8(), l.i32()
 		if n < 0 {
 			panic("negative size")
